@@ -65,11 +65,12 @@ struct bitset {
         TETL_PRECONDITION(len <= size());
 
         for (decltype(pos) i = 0; i < len; ++i) {
+            // The last character of the initializing string corresponds to bit 0, like std::bitset.
             if (Traits::eq(str[i + pos], one)) {
-                set(i, true);
+                set(len - 1 - i, true);
             }
             if (Traits::eq(str[i + pos], zero)) {
-                set(i, false);
+                set(len - 1 - i, false);
             }
         }
     }
